@@ -6,4 +6,4 @@ Require Extraction.
 Require Import ExtrOcamlBasic.
 Extraction Language OCaml.
 Extraction "pubsubmodel.ml" byte_of_N byte_to_N z_to_dec
-  decode_stream init step run outq queue_match reply_match chan_msgs expected subscribed.
+  decode_stream init step run outq queue_match observed_match reply_match chan_msgs expected subscribed.
